@@ -46,6 +46,7 @@ Step ==
           [] e.op = "Kernel3d" -> Kernel3dOK(e)
           [] e.op = "Equiv" -> EquivOK(e)
           [] e.op = "Reference" -> ReferenceOK(e)
+          [] e.op = "TfTable" -> e.same        \* the Cartesian -> pure tables are the documented solid harmonics
           [] e.op = "Screening" -> e.same
           [] e.op = "Rejects" -> e.r = "rejected") = TRUE
   /\ l' = l + 1 /\ UNCHANGED tid
